@@ -7,6 +7,7 @@ import (
 	"fmt"
 	"sort"
 	"strings"
+	"testing/synctest"
 	"time"
 
 	"github.com/tsuna/gohbase"
@@ -226,6 +227,20 @@ func waitOrHorizon(done <-chan struct{}, horizon time.Duration) bool {
 	case <-time.After(horizon):
 		return false
 	}
+}
+
+// drainClient gives a closed client's background goroutines (establishers in
+// a back-off sleep, asynchronous scanner closes) virtual time to finish. The
+// bubble clock stops when the root returns, so this must happen before.
+func drainClient() {
+	time.Sleep(5 * time.Minute)
+	synctest.Wait()
+}
+
+// exitLeak says whether a bubble "deadlock" is merely goroutines left behind
+// when the scenario returned (the business of C19), not a hang in mid-scenario.
+func exitLeak(deadlock string) bool {
+	return strings.Contains(deadlock, "main bubble goroutine has exited")
 }
 
 var allExcClasses = []string{sim.NSRE, sim.RegionMoved, sim.CallQueueBig, sim.RegionOpening, sim.Throttling, sim.RetryImm,
